@@ -37,3 +37,53 @@ Print Assumptions C04_projection_new_rule_safe.
 Theorem C04_projection_rest_rule_legal : forall (new rest : list bodyelem) (stm : stmt) (t : list string), good_split new rest stm = Ok (Some t) -> exists bound : vset, collect_binding_information_body rest (Some t) = Ok (bound, nil).
 Proof. exact (@good_split_rest_legal_proof). Qed.
 Print Assumptions C04_projection_rest_rule_legal.
+
+From NGO Require Import Model.Binding Model.Safe Link.SafeSpec.
+
+Theorem C04_closure_spec : forall (A : Type) (eqb : A -> A -> bool), (forall a b : A, eqb a b = true <-> a = b) -> forall (rules : list brule) (B : list A) (x : A), In x (closure eqb rules B) <-> derivable rules B x.
+Proof. exact (@SafeSpec.closure_spec). Qed.
+Print Assumptions C04_closure_spec.
+
+Theorem C04_safe_core_perm : forall (s : Ast.stmt) (b' : list Ast.bodyelem), Permutation (body_of s) b' -> safe_core (set_body s b') = safe_core s.
+Proof. exact (@SafeSpec.safe_core_perm). Qed.
+Print Assumptions C04_safe_core_perm.
+
+Theorem C04_add_literal_safe : forall (n : nat) (h : Ast.lit) (b : list Ast.bodyelem) (l : Ast.lit), flat_body b = true -> is_plain_lit l = true -> safe_core (Ast.SRule n (Ast.HLit h) b) = true -> (forall x : name, In x (lit_needed l) -> bound (l :: blits b) (head_carrier h :: nil) x) -> safe_core (Ast.SRule n (Ast.HLit h) (Ast.BLit l :: b)) = true.
+Proof. exact (@SafeSpec.add_literal_safe). Qed.
+Print Assumptions C04_add_literal_safe.
+
+Theorem C04_delete_literal_safe : forall (n : nat) (h : Ast.lit) (b1 : list Ast.bodyelem) (l : Ast.lit) (b2 : list Ast.bodyelem), flat_body (b1 ++ Ast.BLit l :: b2) = true -> safe_core (Ast.SRule n (Ast.HLit h) (b1 ++ Ast.BLit l :: b2)) = true -> lit_ies l = nil -> (forall (D P : list name) (x : name), In (D, P) (lit_brules nil l) -> In x P -> bound (blits (b1 ++ b2)) (head_carrier h :: nil) x) -> safe_core (Ast.SRule n (Ast.HLit h) (b1 ++ b2)) = true.
+Proof. exact (@SafeSpec.delete_literal_safe). Qed.
+Print Assumptions C04_delete_literal_safe.
+
+Theorem C04_replace_by_aux_safe : forall (n : nat) (h : Ast.lit) (New Rest : list Ast.lit) (a : string) (ts : list string), forallb is_plain_lit (New ++ Rest) = true -> safe_core (Ast.SRule n (Ast.HLit h) (map Ast.BLit (New ++ Rest))) = true -> ~ In "_" ts -> scope_ies Rest (head_carrier h :: nil) = nil -> (forall x : name, In x (flat_map lit_names New) -> In x (scope_needed false Rest (head_carrier h :: nil)) -> exists v : string, x = NVar v /\ In v ts) -> safe_core (Ast.SRule n (Ast.HLit h) (map Ast.BLit (var_atom a ts :: Rest))) = true.
+Proof. exact (@SafeSpec.replace_by_aux_safe). Qed.
+Print Assumptions C04_replace_by_aux_safe.
+
+Theorem C04_aux_rule_safe : forall (n : nat) (New : list Ast.lit) (a : string) (ts : list string), forallb is_plain_lit New = true -> ~ In "_" ts -> safe_core (Ast.SRule n (Ast.HLit (var_atom a ts)) (map Ast.BLit New)) = true <-> (forall x : name, In x (flat_map lit_needed New) -> bound New nil x) /\ (forall v : string, In v ts -> bound New nil (NVar v)).
+Proof. exact (@SafeSpec.aux_rule_safe). Qed.
+Print Assumptions C04_aux_rule_safe.
+
+Theorem C04_rename_safe : forall sg : string -> string, (forall x y : string, sg x = sg y -> x = y) -> (forall x : string, sg x <> "_") -> forall (n : nat) (h : Ast.lit) (ls : list Ast.lit), forallb slit (h :: ls) = true -> safe_core (Ast.SRule n (Ast.HLit h) (map Ast.BLit ls)) = true -> safe_core (Ast.SRule n (Ast.HLit (rl sg h)) (map Ast.BLit (map (rl sg) ls))) = true.
+Proof. exact (@SafeSpec.rename_safe). Qed.
+Print Assumptions C04_rename_safe.
+
+Theorem C04_binding_complete_implies_safe : forall (n : nat) (h : Ast.lit) (ls : list Ast.lit) (bv : vset), forallb flit (h :: ls) = true -> collect_binding_information_body (map Ast.BLit ls) None = Ast.Ok (bv, nil) -> incl (Ast.vars_lit h) bv -> safe_core (Ast.SRule n (Ast.HLit h) (map Ast.BLit ls)) = true.
+Proof. exact (@SafeSpec.binding_complete_implies_safe). Qed.
+Print Assumptions C04_binding_complete_implies_safe.
+
+Theorem C04_ngo_binding_interval_refuted : refutes (Ast.SRule 1 (Ast.HLit (atom1 "a" (Ast.TVar "X"))) (Ast.BLit (atom1 "p" (Ast.TInterval (Ast.TSym (Ast.SNum 1)) (Ast.TVar "X"))) :: nil)) = true.
+Proof. exact (@SafeSpec.ngo_binding_interval_refuted). Qed.
+Print Assumptions C04_ngo_binding_interval_refuted.
+
+Theorem C04_ngo_binding_nested_division_refuted : refutes (Ast.SRule 1 (Ast.HLit (atom1 "a" (Ast.TVar "X"))) (Ast.BLit (atom1 "p" (Ast.TBin Ast.BPlus (Ast.TBin Ast.BDiv (Ast.TVar "X") (Ast.TSym (Ast.SNum 2))) (Ast.TSym (Ast.SNum 1)))) :: nil)) = true.
+Proof. exact (@SafeSpec.ngo_binding_nested_division_refuted). Qed.
+Print Assumptions C04_ngo_binding_nested_division_refuted.
+
+Theorem C04_ngo_binding_aggregate_cycle_refuted : refutes (Ast.SRule 1 (Ast.HLit (atom1 "a" (Ast.TVar "X"))) (Ast.BLit (Ast.Lit Ast.NoSign (Ast.ABodyAgg (Some (Ast.CEq, Ast.TVar "X")) Ast.FSum ((Ast.TSym (Ast.SNum 1) :: nil, atom1 "p" (Ast.TVar "X") :: nil) :: nil) None)) :: nil)) = true.
+Proof. exact (@SafeSpec.ngo_binding_aggregate_cycle_refuted). Qed.
+Print Assumptions C04_ngo_binding_aggregate_cycle_refuted.
+
+Theorem C04_delete_without_bounds_condition_refuted : safe_stmt (Ast.SRule 1 (Ast.HLit ex_head) (map Ast.BLit (ex_px :: ex_x3 :: ex_xy :: ex_yx :: nil))) = true /\ (forall (D P : list name) (x : name), In (D, P) (lit_brules nil ex_x3) -> In x P -> bound (ex_px :: ex_xy :: ex_yx :: nil) (head_carrier ex_head :: nil) x) /\ lit_ies ex_x3 <> nil /\ safe_result (Ast.SRule 1 (Ast.HLit ex_head) (map Ast.BLit (ex_px :: ex_xy :: ex_yx :: nil))) = Ast.Ok ("Y" :: nil).
+Proof. exact (@SafeSpec.delete_without_bounds_condition_refuted). Qed.
+Print Assumptions C04_delete_without_bounds_condition_refuted.
